@@ -372,7 +372,10 @@ def replay(case: Dict[str, Any]) -> List[Tuple[str, str]]:
 # annotation-flavoured expressions: forward references (strings) are shown unquoted, the arguments of Literal[...] are values and
 # stay strings - however the typing module is spelled
 ANN_EXPRS = ["Literal['r', 'w']", "typing.Literal['int', 'str']", 't.Literal["r", "w"]', "te.Literal['None', 'x']", "typing_extensions.Literal['a']", "t.Optional['int']", "List['G']", "t.Dict[str, 'int']",
-             "'int'", "'List[int]'", "t.Union['a', t.Literal['b', 1]]", "Optional[Literal['x']]", "t.List[t.Literal['a.b', 'c']]", "Dict['str', Literal[1, 'one']]", "'t.Literal[\"q\"]'"]
+             "'int'", "'List[int]'", "t.Union['a', t.Literal['b', 1]]", "Optional[Literal['x']]", "t.List[t.Literal['a.b', 'c']]", "Dict['str', Literal[1, 'one']]", "'t.Literal[\"q\"]'",
+             # annotations of which only a part is written as a string: the parsed part takes the place of the string, with the grouping that implies
+             "'-A' ** 2", "'A + B' * 2", "('A | B')[int]", "'A or B' [0]", "List['-A' ** 2]", "'A if B else C' | None", "Dict[str, 'A + B' * 2]", "-'A + B'", "'A, B' [0]", "not 'A or B'",
+             "'A + B' * 'C - D'", "'lambda: 1' (2)", "'A < B' < C", "('A' ** 'B') ** 'C - D'", "t.Optional['A | B'] | 'C and D'", "'A or B'.attr", "'A and B' or 'C or D'"]
 SITES = ['constant', 'default', 'annotation-param', 'annotation-return', 'annotation-var', 'decorator', 'base-subscript', 'alias']
 
 
